@@ -519,6 +519,22 @@ def gen_func(rng, max_blocks=4, sig=None, genv=()):
     return ret, hexs(name), "|".join(pdesc) or "-", "/".join(bdesc)
 
 
+# the families of header keywords as positions in the model's list `Core3.kLead` (linkage 0-10, preemption 11-12, visibility 13-15, DLL storage class 16-17,
+# calling conventions 18-62)
+LEAD_FAMILIES = [range(0, 11), range(11, 13), range(13, 16), range(16, 18), range(18, 63)]
+
+
+def with_lead(rng, func, p=0.5):
+    """header keywords in front of the return type: at most one of each family, in the order of the grammar"""
+    ret, name, pdesc, bdesc = func
+    if "~" in name or rng.random() >= p:
+        return func
+    lead = [rng.choice(list(fam)) for fam in LEAD_FAMILIES if rng.random() < 0.4]
+    if not lead:
+        lead = [rng.choice(list(rng.choice(LEAD_FAMILIES)))]
+    return ret, name + "~" + ",".join(map(str, lead)), pdesc, bdesc
+
+
 MD_NAMES = [b"dbg", b"tbaa", b"prof", b"llvm.loop", b"x", b"1a", b"7", b"a b", b"\\", b"!", b"range", b"q\"uote", b"\xff"]
 
 
